@@ -20,6 +20,10 @@ def _oracle(obs, case):
     # "then the plan rewinds to its last checkpoint": the replay reference of C04 applied to this run
     prepost = lambda m: m.command == "null" and bool(m.args) and m.args[0] in ("pre", "post")  # noqa: E731
     tags += [t for t in c04_replay.oracle(obs, prepost) if "replay" in t or "rewindab" in t]
+    # context for the known monitor-in-flight defect (C04/C41), so that it masks no other IllegalMessageSequence
+    in_monitor = any(x[4] and 0 < x[1] <= len(obs.msgs) and obs.msgs[x[1] - 1].command == "monitor" for x in oracles.interruptions(obs))
+    if in_monitor:
+        tags = [t + "@interrupted-during-monitor" if "IllegalMessageSequence" in t else t for t in tags]
     return tags
 
 
